@@ -178,7 +178,8 @@ def r3(ctx, prog, eng):
             neg = cs['k'] == 'UnaryOperator' and cs.get('op') == '!'
             okg = (neg and gs[0][1] == 0) or (not neg and gs[0][1] == 1)
         ctx.ob('C01.R3', '%s|write-iff-no-token' % c.name, okg, 'eventfd write is conditional only on !has_commit_run_req_', where=c.loc(w['i']))
-        ctx.ob('C01.R3', '%s|flag-after-write' % c.name, bool(fl) and q.must_follow(c, wp, q.pts(c, fl)), 'the pending flag is set on every path after the write', where=c.loc(w['i']))
+        ctx.ob('C01.R3', '%s|flag-after-write' % c.name, bool(fl) and (q.must_follow(c, wp, q.pts(c, fl)) or q.must_precede(c, q.pts(c, fl), wp)),
+               'the pending flag is set on every path that writes the token (before or after the write: both happen under lock_)', where=c.loc(w['i']))
 
 
 def r4(ctx, prog, eng):
@@ -232,8 +233,14 @@ def r4(ctx, prog, eng):
                     for x in q.subtree_fields(cd, d['init']):
                         if x.endswith('_func_queue_'):
                             srcs.add(x.split('::')[-1])
-    ctx.ob('C01.R4', '%s|both-queues-drained' % cd.name, {'run_in_loop_func_queue_', 'run_next_func_queue_'} <= srcs and len(inv) >= 2,
-           'both member queues are moved out and their tasks invoked (%s, %d invoke sites)' % (sorted(srcs), len(inv)), where=cd.loc(cd.body))
+    # ... or taken by a swap with a local, or consumed in place (front / pop_front on the member): a queue that is neither is not drained here
+    for st in cd.calls():
+        if st.get('fn') in ('swap', 'front', 'pop_front', 'begin') or (st.get('callee') or '').startswith('std::swap'):
+            for x in q.subtree_fields(cd, st['i']):
+                if x.endswith('_func_queue_'):
+                    srcs.add(x.split('::')[-1])
+    ctx.ob('C01.R4', '%s|both-queues-drained' % cd.name, {'run_in_loop_func_queue_', 'run_next_func_queue_'} <= srcs and len(inv) >= 1,
+           'both member queues are taken (moved or swapped out, or consumed in place) and their tasks invoked (%s, %d invoke sites)' % (sorted(srcs), len(inv)), where=cd.loc(cd.body))
 
 
 def r5(ctx, prog, eng):
@@ -643,4 +650,6 @@ def run(ctx):
     ctx.guard(r7, ctx, prog, eng, ctxs)
     from tbxlint import progress
     ctx.guard(progress.run_files, ctx, prog, 'C01.R12', ['event/common_loop.cpp', 'event/common_loop_run.cpp', 'event/engines/epoll/loop.cpp', 'event/engines/select/loop.cpp'], 'loop run/drain code', floor=1)
+    from rules import C01_replay
+    ctx.guard(C01_replay.r13, ctx, prog)
     return prog
